@@ -116,13 +116,13 @@ def wide_all_program(seed=None, pid="wideall"):
     return {"id": pid, "funs": funs, "top": top, "order": order, "recs": [], "uns": [], "feat": ["fixed", "extreme"], "seed": 0}
 
 
-def family(chk, n):
+def family(chk, n, sizes=(6, 10, 16)):
     base = (chk.seed + 5) % 1000003
     progs = [wide_all_program(), wide_all_program(base, "widerand")]
     for i in range(n):
         rf = random.Random(base * 31 + i)
         feats = ["fun"] + [f for f in STABLE_FEATURES if rf.random() < 0.6] + [f for f in ("try", "mac") if rf.random() < 0.3]
-        g = progen.ProgGen(base * 100003 + i, features=feats)
+        g = progen.ProgGen(base * 100003 + i, features=feats, size=rf.choice(sizes))
         # functions generated before any file-level variable exists cannot capture one: they can be moved into a library unit
         for _ in range(2):
             g.function()
@@ -158,9 +158,10 @@ def corpus(chk, b, n, wd):
 # ------------------------------------------------------------------------------------------------------------------
 def fault_sig(res):
     both = (res.get("out") or "") + (res.get("err") or "")
-    m = re.search(r"Bug: (.*)", both)
+    m = re.search(r"Bug:[ \t]*(.*(?:\n.*)?)", both)
     if m:
-        s = re.sub(r"\(line \d+ in file ([^)]*)\)\.?", r"in \1", m.group(1)).strip()
+        s = re.sub(r"\(line \d+ in file ([^)]*)\)\.?", r"in \1", m.group(1)).strip().split("\n")[0]
+        s = re.sub(r"\d+", "N", s) if "foam reference" in s else s
         return "fault", "Bug: " + s[:80]
     if "Program fault" in both or (res.get("rc") is not None and res["rc"] < 0):
         return "fault", "Program fault" if "Program fault" in both else "signal %d" % -res["rc"]
@@ -267,18 +268,19 @@ def run(chk, tier):
     wd = vlib.scratch("c05")
     rnd = random.Random(chk.seed)
     quick = tier == "quick"
-    nprog = 9 if quick else 30
-    nsplit = 5 if quick else 30
-    ncorpus = 3 if quick else 10
+    nprog = 9 if quick else 20
+    nsplit = 7 if quick else 26
+    ncorpus = 3 if quick else 8
     units.Tree.TIMEOUT = 25 if quick else 90
-    progs = family(chk, nprog)
+    # reading FOAM text is slow (about 1 s per 100 KB): the quick tier uses smaller programs
+    progs = family(chk, nprog, sizes=(4, 6, 8) if quick else (6, 10, 16))
     with concurrent.futures.ThreadPoolExecutor(max_workers=2) as ex:
         fm_ = ex.submit(models, chk, tier)
         fam = progcheck.Family(chk, progs, "gen", workers=vlib.NCPU, timeout=1500)
         paths, splits = fm_.result()
     direct = [p for p in paths if not p["chain"]]
     indirect = [p for p in paths if p["chain"]]
-    per_prog = 30 if quick else len(indirect)
+    per_prog = 28 if quick else len(indirect)
     jobs = []
     for p in fam.replayable:
         jobs.append(Job(b, wd, p["id"], render.render(p), fam.exp[p["id"]], prog=p))
@@ -300,7 +302,7 @@ def run(chk, tier):
             pi += 1
             chosen[(p["level"], tuple(p["chain"]), p["final"])] = p
         if j.pid == "wideall" or (j.pid == "widerand" and not quick):
-            chosen = {(p["level"], tuple(p["chain"]), p["final"]): p for p in indirect if len(p["chain"]) <= (2 if quick else 4)}
+            chosen = {(p["level"], tuple(p["chain"]), p["final"]): p for p in indirect if len(p["chain"]) <= (1 if quick else 4)}
         if j.prog is not None:
             el = render.lib_eligible(j.prog)
             if len(el) >= 3 and not j.prog.get("exns"):        # exception categories are defined per unit: such programs are not split
@@ -492,6 +494,8 @@ def run(chk, tier):
     chk.extra["programs_by_status"] = fam.status_count
     chk.extra["compiler_commands"] = sum(t.ncmd for j in jobs for t in j.trees.values())
     chk.extra["trace_events"] = len(events)
+    chk.extra["slowest_commands"] = sorted((x + (j.pid,) for j in jobs for t in j.trees.values() for x in t.slow), reverse=True)[:5]
+    chk.extra["timeouts_retried"] = sum(t.retries for j in jobs for t in j.trees.values())
     chk.extra["rejected_events"] = len(bads)
     chk.extra["reexpressed_constants"] = {"expressions_found": len(exprs), "distinct": len(seen_shapes),
                                           "wide_constants_in_direct_foam": len([c for c in reduced if reduced[c]]),
